@@ -7,6 +7,7 @@
   arrays subscripted by a literal, X or Y, the register variables X and Y, and constants, built from
       lv = a | lv = a ∘ b | lv ∘= a | lv++ | lv--     lv ::= v | t[i] | X | Y    a, b ::= n | v | t[i] | X | Y
       i ::= n | X | Y     ∘ ∈ {+, −, &, |, ^}          (stage 1: v only; stage 3: X and Y; stage 4: array elements)
+      s = w | s = w ∘ w | s ∘= w      s an `unsigned short` variable; w ::= s | n ≤ 65535 | v      (stage 6)
       { S… } | if (c) S | if (c) S else S | while (c) S | do S while (c); | for (F; c; F) S   (stage 2)
       break; | continue; | if (c) break; | if (c) continue;   inside loops                    (stage 5)
       c ::= a ⋈ b | lv | !lv | c && c | c || c | !c     ⋈ ∈ {==, !=, <, >=, >, <=}; no ordered comparison with
@@ -41,16 +42,23 @@
      body has a `continue` of its own, and then forgets the flags: both are part of the port). The unbraced
      `if (c) break;` is a form of its own (one branch to the loop's label, `.ifend` counter taken but unused).
      `for` runs the update after a `continue` (`semFor`); C15 proves `for` ≡ `while` only for bodies without one.
+   * stage 6 (16-bit destinations): the statements `s = w`, `s = w ∘ w`, `s ∘= w` are part of the straight-line
+     statements of all the theorems above; their meaning in `rspec` is given byte by byte in the order the code works
+     (low bytes, carry / borrow, high bytes read after the low byte was stored); `wide_stmt_is_word_arithmetic` and
+     `wide_code_correct` show that this IS 16-bit arithmetic on the two cells of `s` — and nothing else changes —
+     for every layout in which the high cell of a 16-bit operand is not the low cell of the destination.
    * `fresh_labels`: every label the generator defines is new (counter ranges), the fact behind the
      uniqueness of labels in emitted code (used again by C13).
    * `adc_after_clc`, `sbc_after_sec`, `negate_means_not`, `mirror_means_swap`: the arithmetic and
      operator-table facts the templates rest on.
   NOT covered by these theorems (covered by co-execution against CV.CSem in the check, partial):
-  nested expressions, 16-bit values, arrays of 16-bit elements, subscripts that are memory operands, switch,
+  nested expressions, 16-bit ++/--/shifts/comparisons/unary operators, 16-bit values in conditions, arrays of 16-bit
+  elements, subscripts that are memory operands, switch,
   calls, signed types, pointers; optimisation levels above -O0 (C02's subject).
 -/
 import CV.Proofs.GenStructMain
 import CV.Proofs.GenStructPure
+import CV.Proofs.GenWord
 set_option linter.unusedSimpArgs false
 set_option linter.constructorNameAsVariable false
 namespace CV.C01
@@ -86,6 +94,49 @@ theorem reg_stmt_correct (L : Layout) (zp : String → Bool) (st : RStmt) (fl : 
     ∃ s', execSeq s (rgenOps L zp st) = some s' ∧ srcOf s' = rspec L (srcOf s) st ∧ s'.sp = s.sp ∧
       FlagsInv L (flagsAfter zp fl st) s' :=
   rflat_correct L zp st fl s hinv
+
+/-! ### stage 6: 16-bit destinations -/
+
+/-- `s = x | s = x ∘ y | s ∘= x` with `s` an `unsigned short` variable and x, y among 16-bit variables, constants up
+    to 65535 and 8-bit variables (zero-extended): the code (two byte passes, the carry travelling from the first to
+    the second; the generator's omissions of `+ 0`, `& 255`, … decided on the whole constant; `t & 255` answered
+    without code) ends and leaves memory, X, Y as `rspec` says — `reg_stmt_correct` covers these statements too. What
+    `rspec` says for them is 16-bit arithmetic: -/
+theorem wide_stmt_is_word_arithmetic (L : Layout) (σ : SrcSt) (st : RStmt) (s : String) (w : BitVec 16)
+    (h : wResult L σ st = some (s, w)) (hsep : ∀ x ∈ wOperands st, ∀ t, x = .wvar t → L t + 1 ≠ L s) :
+    wordAt L (rspec L σ st).mem s = w ∧ (rspec L σ st).x = σ.x ∧ (rspec L σ st).y = σ.y ∧
+      ∀ a, a ≠ L s → a ≠ L s + 1 → (rspec L σ st).mem.read a = σ.mem.read a :=
+  wide_stmt_word L σ st s w h hsep
+
+/-- the machine code of a 16-bit statement computes the 16-bit result: for every layout in which the high cell of no
+    16-bit operand is the low cell of the destination (each variable has its own cells), every machine state -/
+theorem wide_code_correct (L : Layout) (zp : String → Bool) (st : RStmt) (c : Cpu) (s : String) (w : BitVec 16)
+    (h : wResult L (srcOf c) st = some (s, w)) (hsep : ∀ x ∈ wOperands st, ∀ t, x = .wvar t → L t + 1 ≠ L s) :
+    ∃ c', execSeq c (rgenOps L zp st) = some c' ∧ wordAt L c'.mem s = w ∧ c'.x = c.x ∧ c'.y = c.y ∧ c'.sp = c.sp ∧
+      ∀ a, a ≠ L s → a ≠ L s + 1 → c'.mem.read a = c.mem.read a := by
+  obtain ⟨c', h1, h2, h3, _⟩ := rflat_correct L zp st none c trivial
+  obtain ⟨w1, w2, w3, w4⟩ := wide_stmt_word L (srcOf c) st s w h hsep
+  have hm : c'.mem = (rspec L (srcOf c) st).mem := congrArg SrcSt.mem h2
+  have hx : c'.x = (rspec L (srcOf c) st).x := congrArg SrcSt.x h2
+  have hy : c'.y = (rspec L (srcOf c) st).y := congrArg SrcSt.y h2
+  exact ⟨c', h1, by rw [hm]; exact w1, by rw [hx]; exact w2, by rw [hy]; exact w3, h3, fun a ha hb => by rw [hm]; exact w4 a ha hb⟩
+
+/-- the two byte passes are 16-bit arithmetic (carry of the addition, borrow of the subtraction) -/
+theorem byte_passes_are_word_arithmetic (op : BOp) (a1 a0 b1 b0 : Byte) :
+    word (highRes op (lowRes op a0 b0).2 a1 b1) (lowRes op a0 b0).1 = op.apply16 (word a1 a0) (word b1 b0) :=
+  passes_word op a1 a0 b1 b0
+
+/-! non-vacuity of stage 6: the templates, a layout that meets the separation hypothesis, a concrete result -/
+example : rgenText (fun _ => true) (.binW "s" .add (.wvar "t") (.wconst 300)) =
+    [(.LDA, "t"), (.CLC, ""), (.ADC, "#44"), (.STA, "s"), (.LDA, "t+1"), (.ADC, "#1"), (.STA, "s+1")] := by decide
+example : rgenText (fun _ => true) (.binW "s" .add (.wconst 256) (.wbyte "a")) =
+    [(.LDA, "a"), (.CLC, ""), (.STA, "s"), (.LDA, "#0"), (.ADC, "#1"), (.STA, "s+1")] := by decide
+example : rgenText (fun _ => true) (.opasgW "s" .band (.wconst 255)) =
+    [(.LDA, "s"), (.STA, "s"), (.LDA, "#0"), (.STA, "s+1")] := by decide
+example : rgenText (fun _ => true) (.binW "s" .sub (.wvar "t") (.wconst 256)) =
+    [(.LDA, "t"), (.SEC, ""), (.SBC, "#0"), (.STA, "s"), (.LDA, "t+1"), (.SBC, "#1"), (.STA, "s+1")] := by decide
+example : (fun n : String => if n == "s" then (0x80 : Word) else 0x82) "t" + 1 ≠ (fun n : String => if n == "s" then (0x80 : Word) else 0x82) "s" := by decide
+example : word (highRes .add (lowRes .add 0xff 0x01).2 0x00 0x00) (lowRes .add 0xff 0x01).1 = 0x0100 := by decide
 
 /-! ### stage 2: structured control flow over those statements -/
 
